@@ -688,7 +688,7 @@ func init() {
 		NeedsTerm: true,
 		Race:      true,
 		Workers:   8,
-		Rule: "scripts of 3-10 deterministic Emacs tokens (argument-reading commands have their command key and argument key as two tokens), each run undisturbed and then with 1-3 disturbances: SIGWINCH with a real size change (TIOCSWINSZ, alternating sizes), bursts of 2-20 SIGWINCH, Shell.Printf from a second goroutine; fired (t1) at an input wait - main loop wait or argument wait of a command - or (t2) inside a redisplay, with the emulator holding the answer to the main loop's k-th cursor query until the disturber's own query arrives and answering main-first / other-first / in one write. Half of the cases have a clean schedule: single disturbances at input waits, each fired while the main loop is really parked in its terminal read (the gate holds delivery) and run to its end (Printf returned / resize goroutine back in its select, read off goroutine dumps) before a helper types the next keys; the others overlap disturbances with typed keys and redisplays. One case in sixteen has a Completer: possible-completions displays a one-row or several-row list, the terminal shrinks to 2/5 of its width at the wait right after or one key later, and the final frame must show the input line once. Every finding is keyed by its schedule class; known findings exist for the overlapping class only. Oracles: no crash, no deadlock, no stuck keystroke (logical criteria), no resize/Printf goroutine blocked for good inside its cursor query (same blocking operation in two dumps taken apart; goroutines of earlier sessions excluded by id), returned (line, err) equals the undisturbed run, after a final harmless key the cursor's row shows prompt+buffer with the cursor on the right cell and nothing below, and the Go race detector reports no race outside the calibrated classes (reports are aggregated by the driver). " +
+		Rule: "application prints are Shell.Printf or Shell.PrintTransientf with a short, two-line, wider-than-the-terminal or empty text; scripts of 3-10 deterministic Emacs tokens (argument-reading commands have their command key and argument key as two tokens), each run undisturbed and then with 1-3 disturbances: SIGWINCH with a real size change (TIOCSWINSZ, alternating sizes), bursts of 2-20 SIGWINCH, Shell.Printf from a second goroutine; fired (t1) at an input wait - main loop wait or argument wait of a command - or (t2) inside a redisplay, with the emulator holding the answer to the main loop's k-th cursor query until the disturber's own query arrives and answering main-first / other-first / in one write. Half of the cases have a clean schedule: single disturbances at input waits, each fired while the main loop is really parked in its terminal read (the gate holds delivery) and run to its end (Printf returned / resize goroutine back in its select, read off goroutine dumps) before a helper types the next keys; the others overlap disturbances with typed keys and redisplays. One case in sixteen has a Completer: possible-completions displays a one-row or several-row list, the terminal shrinks to 2/5 of its width at the wait right after or one key later, and the final frame must show the input line once. Every finding is keyed by its schedule class; known findings exist for the overlapping class only. Oracles: no crash, no deadlock, no stuck keystroke (logical criteria), no resize/Printf goroutine blocked for good inside its cursor query (same blocking operation in two dumps taken apart; goroutines of earlier sessions excluded by id), returned (line, err) equals the undisturbed run, after a final harmless key the cursor's row shows prompt+buffer with the cursor on the right cell and nothing below, and the Go race detector reports no race outside the calibrated classes (reports are aggregated by the driver). " +
 			"distinct non-trivial = distinct realised (trigger kind, disturbance kind, settle / answer order, wait kind) tuples",
 		Assumptions: []string{"realisation of a trigger point is confirmed by the emulator having seen both cursor queries (t2) or by the gate (t1); the polls of a settle wait (2 s), the 300 ms between two dumps and the 250 ms release of a held answer are plumbing: a settle that cannot be confirmed makes the case 'overlapping', the verdict 'blocked for good' needs two identical dumps", "a session that leaves resize/Printf goroutines behind restarts the worker process", "Emacs mode, single-line buffers for the final frame oracle"},
 		N: func(tier string) int {
